@@ -1,60 +1,99 @@
-// C06 — end to end on a real position index (no stub): one known selection at a fixed place, the reference
-// selection symbolic over the whole (short) text; the real iterator is run to exhaustion.
-// Decides filter soundness (returned <=> relation holds and it is not the reference), the buffer/drain logic,
-// the B-tree walk for this shape, and "each once".
+// C06 — the two obligations that need a real position index (no stub), on the smallest index there is:
+// one known selection [2,5) (handle 0) in a text of 8 code points, written directly into the B-tree.
+//   I (iterator contract): TextSelectionIter walks forwards by begin and backwards by end, window symbolic.
+//   F (filter soundness): one step of next_textselection() over a window containing the selection returns it
+//     exactly when refset.test() holds and it is not a member of the reference set.
 use super::super::*;
 use super::common::*;
 use crate::resources::kani_verif::common::with_one_selection;
 
 const TEXTLEN: usize = 8;
 
-macro_rules! e2e {
-    ($name:ident, ($tb:expr, $te:expr), |$all:ident, $negate:ident, $limit:ident| $op:expr) => {
+#[kani::proof]
+#[kani::unwind(4)]
+fn c06_i_iter_forward() {
+    let res = with_one_selection(TEXTLEN, 2, 5);
+    let lo: usize = kani::any();
+    let hi: usize = kani::any();
+    kani::assume(lo <= hi && hi <= TEXTLEN + 1);
+    let mut it = res.range(lo, hi);
+    let first = it.next();
+    match first {
+        Some(t) => assert!(lo <= 2 && 2 < hi && t.begin() == 2 && t.end() == 5, "forward walk yields a selection whose BEGIN lies in the window"),
+        None => assert!(!(lo <= 2 && 2 < hi), "forward walk yields every selection beginning in the window"),
+    }
+    let second = it.next();
+    assert!(second.is_none(), "and yields it once");
+    kani::cover!(first.is_some(), "yielded");
+    kani::cover!(first.is_none() && lo <= 5 && 5 < hi, "end position in the window but begin not: not yielded forwards");
+    core::mem::forget(it);
+    core::mem::forget(res);
+}
+
+#[kani::proof]
+#[kani::unwind(4)]
+fn c06_i_iter_backward() {
+    let res = with_one_selection(TEXTLEN, 2, 5);
+    let lo: usize = kani::any();
+    let hi: usize = kani::any();
+    kani::assume(lo <= hi && hi <= TEXTLEN + 1);
+    let mut it = res.range(lo, hi);
+    let first = it.next_back();
+    match first {
+        Some(t) => assert!(lo <= 5 && 5 < hi && t.begin() == 2 && t.end() == 5, "backward walk yields a selection whose END lies in the window"),
+        None => assert!(!(lo <= 5 && 5 < hi), "backward walk yields every selection ending in the window"),
+    }
+    let second = it.next_back();
+    assert!(second.is_none(), "and yields it once");
+    kani::cover!(first.is_some(), "yielded");
+    kani::cover!(first.is_none() && lo <= 2 && 2 < hi, "begin position in the window but end not: not yielded backwards");
+    core::mem::forget(it);
+    core::mem::forget(res);
+}
+
+macro_rules! filter_step {
+    ($name:ident, |$all:ident, $negate:ident, $limit:ident| $op:expr) => {
         #[kani::proof]
-        #[kani::unwind(6)]
+        #[kani::unwind(4)]
         fn $name() {
-            let res = with_one_selection(TEXTLEN, $tb, $te);
-            let t = TextSelection { intid: Some(TextSelectionHandle(0)), begin: $tb, end: $te };
+            let res = with_one_selection(TEXTLEN, 2, 5);
+            let t = TextSelection { intid: Some(TextSelectionHandle(0)), begin: 2, end: 5 };
             let rb: usize = kani::any();
             let re: usize = kani::any();
             kani::assume(rb <= re && re <= TEXTLEN);
-            let r = TextSelection { intid: Some(TextSelectionHandle(1)), begin: rb, end: re };
+            // the reference is the known selection itself (handle 0) or another one (handle 1)
+            let rh: u32 = if kani::any() { 0 } else { 1 };
+            let r = TextSelection { intid: Some(TextSelectionHandle(rh)), begin: rb, end: re };
             let $all: bool = kani::any();
             let $negate: bool = kani::any();
             let lim: u8 = kani::any();
             let $limit: Option<usize> = if kani::any() { Some(lim as usize) } else { None };
             let op: TextSelectionOperator = $op;
             let refset = set1(r);
-            let want = refset.test(&op, &t, &res);
-            let mut it = res.textselections_by_operator(op, set1(r));
-            let first = it.next();
-            let second = it.next();
-            assert!(second.is_none(), "each once: the only known selection is returned at most once");
-            assert!(first.is_some() == want, "returned exactly when the relation test holds");
-            if let Some(h) = first { assert!(h == TextSelectionHandle(0), "the returned handle is the known selection"); }
-            kani::cover!(want && !$negate, "found");
-            kani::cover!(!want && !$negate, "not related, not found");
-            kani::cover!(want && rb > TEXTLEN / 2, "found with the reference in the second half");
+            let want = refset.test(&op, &t, &res) && rh != 0;
+            let mut textseliters = Vec::with_capacity(1);
+            textseliters.push((res.range(0, TEXTLEN + 1), true));
+            let mut it = FindTextSelectionsIter {
+                resource: &res,
+                operator: op,
+                refset,
+                textseliter_index: 0,
+                textseliters,
+                buffer: VecDeque::new(),
+                drain_buffer: false,
+            };
+            let got = it.next_textselection();
+            assert!(got.is_some() == want, "a walked selection is returned exactly when the relation test holds and it is not the reference itself");
+            if let Some(h) = got { assert!(h == TextSelectionHandle(0), "the returned handle is the walked selection"); }
+            kani::cover!(want, "returned");
+            kani::cover!(!want && rh == 0, "the reference itself is walked and not returned");
+            kani::cover!(!want && rh != 0, "unrelated selection is walked and not returned");
             core::mem::forget(it);
-            core::mem::forget(refset);
             core::mem::forget(res);
         }
     };
 }
-
-// shapes of the known selection: inner [2,5), whole text [0,8), zero-width at the very end [8,8), tail [5,8)
-e2e!(c06_e2e_overlaps_inner, (2, 5), |all, negate, limit| TextSelectionOperator::Overlaps { all, negate });
-e2e!(c06_e2e_overlaps_tail, (5, 8), |all, negate, limit| TextSelectionOperator::Overlaps { all, negate });
-e2e!(c06_e2e_embeds_inner, (2, 5), |all, negate, limit| TextSelectionOperator::Embeds { all, negate });
-e2e!(c06_e2e_embeds_endzero, (8, 8), |all, negate, limit| TextSelectionOperator::Embeds { all, negate });
-e2e!(c06_e2e_embedded_whole, (0, 8), |all, negate, limit| TextSelectionOperator::Embedded { all, negate, limit });
-e2e!(c06_e2e_embedded_inner, (2, 5), |all, negate, limit| TextSelectionOperator::Embedded { all, negate, limit });
-e2e!(c06_e2e_before_tail, (5, 8), |all, negate, limit| TextSelectionOperator::Before { all, negate, limit });
-e2e!(c06_e2e_before_endzero, (8, 8), |all, negate, limit| TextSelectionOperator::Before { all, negate, limit });
-e2e!(c06_e2e_after_inner, (2, 5), |all, negate, limit| TextSelectionOperator::After { all, negate, limit });
-e2e!(c06_e2e_precedes_tail, (5, 8), |all, negate, limit| TextSelectionOperator::Precedes { all, negate, allow_whitespace: false });
-e2e!(c06_e2e_succeeds_inner, (2, 5), |all, negate, limit| TextSelectionOperator::Succeeds { all, negate, allow_whitespace: false });
-e2e!(c06_e2e_samebegin_inner, (2, 5), |all, negate, limit| TextSelectionOperator::SameBegin { all, negate });
-e2e!(c06_e2e_sameend_tail, (5, 8), |all, negate, limit| TextSelectionOperator::SameEnd { all, negate });
-e2e!(c06_e2e_samerange_inner, (2, 5), |all, negate, limit| TextSelectionOperator::SameRange { all, negate });
-e2e!(c06_e2e_equals_inner, (2, 5), |all, negate, limit| TextSelectionOperator::Equals { all, negate });
+filter_step!(c06_f_overlaps, |all, negate, limit| TextSelectionOperator::Overlaps { all, negate });
+filter_step!(c06_f_embedded, |all, negate, limit| TextSelectionOperator::Embedded { all, negate, limit });
+filter_step!(c06_f_before, |all, negate, limit| TextSelectionOperator::Before { all, negate, limit });
+filter_step!(c06_f_samerange, |all, negate, limit| TextSelectionOperator::SameRange { all, negate });
